@@ -92,8 +92,10 @@ func tail(s string) string {
 // ---------------------------------------------------------------- directory trees
 
 var namePool = []string{"plain.txt", "a b.txt", "h#frag.txt", "a?b", "q?x=1.html", "p%41", "100%.txt", "%zz", "a:b", "c:d.js", "x+y.css", "a&b=c;d", "é.html", "日本語.txt", "🌐.bin", ".hidden", "index.html", "index.htm",
-	"UPPER.TXT", "no-extension", "semi;colon", "equals=sign", "comma,name", "at@sign", "tilde~", "star*", "paren(1)", "bang!", "dollar$", "quote'", "pipe|x", "caret^", "back`tick", "brace{}", "brack[]", "sp  two"}
-var dirPool = []string{"sub", "a b", "d#1", "q?", "p%20", "c:", "é", "deep", "x+y"}
+	"UPPER.TXT", "no-extension", "semi;colon", "equals=sign", "comma,name", "at@sign", "tilde~", "star*", "paren(1)", "bang!", "dollar$", "quote'", "pipe|x", "caret^", "back`tick", "brace{}", "brack[]", "sp  two",
+	// names that merely resemble the special one
+	"site-index.html", "reindex.html", "my index.html", "index.html.bak", "INDEX.HTML", "index.html5", "xindex.html", "index.htmlx", ".index.html"}
+var dirPool = []string{"sub", "a b", "d#1", "q?", "p%20", "c:", "é", "deep", "x+y", "index.html.d", "xindex.html"}
 
 type treeFile struct {
 	rel  string // slash separated
